@@ -68,6 +68,8 @@ TIERS = {
     "thorough": {"histories": 9600, "runs": 12, "budget_s": 800, "timeout": 180, "batch": 480, "shrink_s": 120},
 }
 
+MAX_REPORTS = 12
+SHRINK_EACH_IDENTITY = True
 EPS = float(np.finfo(float).eps)
 KEY_WITH_REGIONAL_FACTOR = False  # see ASSUMPTIONS: the key is judged as evaluated when the order is fixed
 
